@@ -21,7 +21,7 @@ from vf import cel, common, outcome, values
 RULE = (
     "call shapes f(), f(a), f(a,b), f(a,b,c), a.f(), a.f(b), a.f(b,c) x 10 templates (bare, arithmetic, ||/&&/?: absorbing contexts, macro body, list element, "
     "argument of another host function) x {list of callables, name->callable dict} x {module-level def made visible to transpiled code, module-level def, "
-    "nested def, lambda, callable object} x {returns value, returns CELEvalError, raises ValueError, raises TypeError} x both runners; built-in overrides "
+    "nested def, lambda, callable object} x {returns value, returns CELEvalError, raises ValueError, raises TypeError, raises a subclass of either (JSONDecodeError, UnicodeDecodeError, user class)} x both runners; built-in overrides "
     "(size/contains/startsWith) and their scope; unbound names; Hypothesis draws the argument values. non-trivial = the function is reached at least once, or "
     "an error behaviour sits in an absorbing context. distinct by (template, shape, kind, style, behaviour, runner, args)."
 )
@@ -43,7 +43,19 @@ def _behave(behaviour: str, args: Tuple) -> Any:
         return CELEvalError("host says no", ValueError, ("nope",))
     if behaviour == "raises-ValueError":
         raise ValueError("host ValueError")
+    if behaviour == "raises-ValueError-subclass":  # what a real host function raises: json.loads / bytes.decode / int() of a user's text
+        if len(args) % 2:
+            import json
+
+            json.loads("{")  # json.JSONDecodeError, a subclass of ValueError
+        b"\xff".decode("utf-8")  # UnicodeDecodeError, a subclass of ValueError
+    if behaviour == "raises-TypeError-subclass":
+        raise HostTypeError("host TypeError subclass")
     raise TypeError("host TypeError")
+
+
+class HostTypeError(TypeError):
+    pass
 
 
 # module-level host functions (one per behaviour so that the behaviour is a property of the callable, as in real use)
@@ -67,12 +79,23 @@ def hf_raises_TypeError(*args):
     return _behave("raises-TypeError", args)
 
 
+def hf_raises_ValueError_subclass(*args):
+    _record("hf", args)
+    return _behave("raises-ValueError-subclass", args)
+
+
+def hf_raises_TypeError_subclass(*args):
+    _record("hf", args)
+    return _behave("raises-TypeError-subclass", args)
+
+
 def hg(*args):  # the "other" host function, always a value
     _record("hg", args)
     return ct.IntType(100 + len(args))
 
 
-MODULE_FUNCS = {"value": hf_value, "returns-error": hf_returns_error, "raises-ValueError": hf_raises_ValueError, "raises-TypeError": hf_raises_TypeError}
+MODULE_FUNCS = {"value": hf_value, "returns-error": hf_returns_error, "raises-ValueError": hf_raises_ValueError, "raises-TypeError": hf_raises_TypeError,
+                "raises-ValueError-subclass": hf_raises_ValueError_subclass, "raises-TypeError-subclass": hf_raises_TypeError_subclass}
 BEHAVIOURS = list(MODULE_FUNCS)
 KINDS = ["module-def-visible", "module-def", "nested-def", "lambda", "callable-object"]
 STYLES = ["list", "dict"]
